@@ -142,19 +142,37 @@ func (s *session) block(kind string, a []int, hexpix string) (string, bool) {
 			im.Pix[i] = pix[4*i]
 		}
 		img = im
-	} else if strings.HasSuffix(kind, "y") || strings.HasSuffix(kind, "z") {
+	} else if strings.HasSuffix(kind, "w") {
+		// halfw / fullw: an opaque *image.NRGBA64 source (16 bits per channel: the byte of the op line is the high byte,
+		// the low byte is derived from it), through the scaler's generic path
+		im := image.NewNRGBA64(image.Rect(0, 0, W, H))
+		for i := 0; i < W*H; i++ {
+			for c := 0; c < 3; c++ {
+				im.Pix[8*i+2*c] = pix[4*i+c]
+				im.Pix[8*i+2*c+1] = pix[4*i+c] ^ 0x5a
+			}
+			im.Pix[8*i+6], im.Pix[8*i+7] = 0xff, 0xff
+		}
+		img = im
+	} else if strings.HasSuffix(kind, "y") || strings.HasSuffix(kind, "z") || strings.HasSuffix(kind, "u") || strings.HasSuffix(kind, "v") {
 		// halfy / fully: an *image.YCbCr 4:4:4 source, (Y, Cb, Cr) = the first three bytes of each pixel; halfz / fullz:
-		// 4:2:0 (what most JPEGs decode to): the chroma sample of a 2x2 block is taken from its top-left pixel
-		ratio := image.YCbCrSubsampleRatio444
-		if strings.HasSuffix(kind, "z") {
-			ratio = image.YCbCrSubsampleRatio420
+		// 4:2:0 (what most JPEGs decode to), halfu / fullu: 4:2:2, halfv / fullv: 4:4:0 — the chroma sample of a block
+		// is taken from its top-left pixel
+		ratio, sx, sy := image.YCbCrSubsampleRatio444, 1, 1
+		switch kind[len(kind)-1] {
+		case 'z':
+			ratio, sx, sy = image.YCbCrSubsampleRatio420, 2, 2
+		case 'u':
+			ratio, sx, sy = image.YCbCrSubsampleRatio422, 2, 1
+		case 'v':
+			ratio, sx, sy = image.YCbCrSubsampleRatio440, 1, 2
 		}
 		im := image.NewYCbCr(image.Rect(0, 0, W, H), ratio)
 		for y := 0; y < H; y++ {
 			for x := 0; x < W; x++ {
 				i := y*W + x
 				im.Y[im.YOffset(x, y)] = pix[4*i]
-				if ratio == image.YCbCrSubsampleRatio444 || (x%2 == 0 && y%2 == 0) {
+				if x%sx == 0 && y%sy == 0 {
 					im.Cb[im.COffset(x, y)] = pix[4*i+1]
 					im.Cr[im.COffset(x, y)] = pix[4*i+2]
 				}
@@ -369,7 +387,7 @@ func (s *session) execOp(f []string) (string, bool) {
 			return "panic", true
 		}
 		return res, true
-	case "half", "full", "halfp", "fullp", "halfg", "fullg", "halfq", "fullq", "halfy", "fully", "halfz", "fullz":
+	case "half", "full", "halfp", "fullp", "halfg", "fullg", "halfq", "fullq", "halfy", "fully", "halfz", "fullz", "halfu", "fullu", "halfv", "fullv", "halfw", "fullw":
 		if len(f) != 10 {
 			return "", false
 		}
@@ -920,13 +938,14 @@ func genBlocks(r *hx.Run, rng *gen.Rng, do func(string) string) {
 	// round 4: sources of other concrete types — *image.Gray (the scaler's Gray fast path), *image.Paletted with a
 	// color.NRGBA palette (the scaler's generic path; translucent entries in half of them), *image.YCbCr 4:4:4 and 4:2:0
 	// (the scaler's YCbCr fast paths; what JPEGs decode to) — unscaled and rescaled
-	mg := 1000
+	mg := 1500
 	if r.Thorough {
-		mg = 10000
+		mg = 15000
 	}
 	for i := 0; i < mg; i++ {
 		W, H := rng.Range(1, 9), rng.Range(1, 12)
-		kind := gen.Pick(rng, []string{"halfg", "fullg", "halfq", "fullq", "halfq", "fullq", "halfy", "fully", "halfz", "fullz"})
+		kind := gen.Pick(rng, []string{"halfg", "fullg", "halfq", "fullq", "halfq", "fullq", "halfy", "fully", "halfz", "fullz", "halfz", "fullz",
+			"halfu", "fullu", "halfv", "fullv", "halfw", "fullw"})
 		px := make([][4]int, W*H)
 		var pal [][4]int
 		translucent := rng.Chance(1, 2)
@@ -941,7 +960,9 @@ func genBlocks(r *hx.Run, rng *gen.Rng, do func(string) string) {
 			if strings.HasSuffix(kind, "g") {
 				y := rng.Intn(256)
 				px[k] = [4]int{y, y, y, 255}
-			} else if strings.HasSuffix(kind, "y") || strings.HasSuffix(kind, "z") {
+			} else if strings.HasSuffix(kind, "w") {
+				px[k] = [4]int{rng.Intn(256), rng.Intn(256), rng.Intn(256), 255}
+			} else if !strings.HasSuffix(kind, "q") {
 				// (Y, Cb, Cr), extremes included (conversions that clamp)
 				px[k] = [4]int{gen.Pick(rng, []int{0, 16, 128, 235, 255, rng.Intn(256)}), gen.Pick(rng, []int{0, 128, 255, rng.Intn(256)}),
 					gen.Pick(rng, []int{0, 128, 255, rng.Intn(256)}), 255}
